@@ -315,7 +315,7 @@ func faultVariant(out *os.File, bseed int64, steps, at int, ft *memfile.Fault, p
 		return target{kind: kind}
 	}
 	pool := []string{"get", "get", "min", "max", "visit", "visit", "set", "set", "set", "del", "del", "del", "totals", "len",
-		"flush", "flush", "collwrite", "evict", "copyto", "revert", "reopen"}
+		"flush", "flush", "collwrite", "collwrite", "evict", "copyto", "revert", "revert", "reopen"}
 	var tg []target
 	for len(tg) < 22 {
 		tg = append(tg, mk(pool[rng.Intn(len(pool))]))
